@@ -109,6 +109,22 @@ class C02(DocProp):
                 # sub-workload of the listed finding KF-C02-list-inside-footnote-definition (G-doc keeps lists out of footnotes)
                 yield {"kind": "text", "text": "[^1]: para one\n\n    - a\n    - b\n\n    " + r.choice(["```\n    code\n    ```", "> quote", "more text"]) + "\n\nx[^1]\n",
                        "feats": ["footnote-list"], "profile": "footnote-list", "opts": [rand_opts(r, widths=[0, 30, 88])]}
+            if r.random() < 0.04:
+                # hand-wrapped text of 4..40 KB whose size shrinks a lot once white space is collapsed (indented continuation
+                # lines, runs of spaces), with constructs that hold spaces: a size test on the raw text decides differently on
+                # the second pass. Plaintext and Markdown.
+                from vf.gen_para import CODE_SPANS, LINKS, HTML, para_words
+                nsent = r.choice([40, 100, 160, 400])
+                sents = para_words(r, nsent, atoms=0.12, atom_pool=CODE_SPANS + LINKS + HTML, maxw=10)
+                ind = " " * r.choice([4, 8, 12])
+                big = ""
+                for ws in sents:
+                    ws = [w for w in ws if not w.startswith(("`` ", "[r1]", "[ref text]"))]
+                    line = (" " * r.choice([1, 2, 6])).join(ws)
+                    big += line + r.choice(["\n" + ind, "\n" + ind, "   ", "\n"])
+                big = "Start " + big.strip() + "\n"
+                yield {"kind": "text", "text": big, "feats": ["hand-wrapped-big"], "profile": "hand-wrapped-big",
+                       "opts": [rand_opts(r, widths=[40, 88], force={"plaintext": True}), rand_opts(r, widths=[40, 88, 0], force={"plaintext": r.random() < 0.5})]}
             # a number-dot word and an inline tag in one paragraph (listed finding KF-C02-escaped-number-in-tag-paragraph;
             # G-doc keeps the two apart)
             n = r.randint(6, 14)
